@@ -96,6 +96,7 @@ type Client struct {
 	done           chan struct{}  // closed when the Client is closed
 	ready          chan struct{}  // closed when the connection is negotiated
 	isClosed       uint32         // used atomically to prevent duplicate closure of done
+	closeSent      uint32         // set atomically once this Client has written a CloseConnection message
 	versionMu      sync.RWMutex   // guards version: negotiation changes it while the read and write loops use it
 	version        VersionNum     // sent in headers; established during negotiation; use ver/setVer
 }
@@ -739,7 +740,10 @@ func (c *Client) handleIncoming() error {
 
 		hdr, err := c.readHeader()
 		if err != nil {
-			if !receivedClosed {
+			// The end of the stream is only expected after a CloseConnectionResponse
+			// to a CloseConnection this Client sent (Shutdown): a reader that sends
+			// the response unasked and hangs up must not leave Connect waiting forever.
+			if !receivedClosed || atomic.LoadUint32(&c.closeSent) == 0 {
 				return fmt.Errorf("failed to get next message: %v", err)
 			}
 
@@ -854,6 +858,12 @@ func (c *Client) handleOutgoing() error {
 			if err := c.conn.SetWriteDeadline(time.Now().Add(c.timeout)); err != nil {
 				return fmt.Errorf("failed to set write deadline: %w", err)
 			}
+		}
+
+		if msg.typ == MsgCloseConnection {
+			// Tell the read side before the reader can possibly answer:
+			// only now is a CloseConnectionResponse followed by the end of the stream expected.
+			atomic.StoreUint32(&c.closeSent, 1)
 		}
 
 		c.logger.SendingMsg(msg.Header)
